@@ -60,6 +60,7 @@ inductive Err where
   | funds     -- insufficient funds
   | perm      -- marker restriction: no transfer access for a restricted denom
   | state     -- "already fully accepted"
+  | panic     -- InitGenesis: holder cannot cover the imported records
   deriving DecidableEq, Repr
 
 def Err.toString : Err → String
@@ -67,6 +68,7 @@ def Err.toString : Err → String
   | .funds => "err:funds"
   | .perm => "err:perm"
   | .state => "err:state"
+  | .panic => "panic:other"
 
 /-- `QuarantineRecord` (quarantine.pb.go): order of the two address lists is kept. -/
 structure Record where
@@ -443,6 +445,42 @@ def outstanding (s : State) (d : Denom) : Int := sumRecs s.recs d
 def fundsHolderBalanceInvariant (s : State) : Bool :=
   (s.recs.flatMap fun e => Coins.denoms e.2.coins).all fun d =>
     decide (outstanding s d ≤ Ledger.bal s.bank s.holder d)
+
+/-! ### genesis export / import (x/quarantine/keeper/genesis.go — not among the anchored files,
+modelled because an export followed by an import is how a chain is restarted from state) -/
+
+/-- `QuarantinedFunds`: what `ExportGenesis` writes per record (`AsQuarantinedFunds`,
+quarantine.go:258): the accepted senders are NOT exported. -/
+structure GenFunds where
+  to : Addr
+  unacc : List Addr
+  coins : Coins
+  declined : Bool
+  deriving Repr
+
+/-- genesis.go:54 `ExportGenesis` (the funds part; opt-ins and auto-responses round-trip as is) -/
+def exportGenesis (s : State) : List GenFunds :=
+  s.recs.map fun e => ⟨e.1.1, e.2.unacc, e.2.coins, e.2.declined⟩
+
+/-- genesis.go:27-32: `SetQuarantineRecord(toAddr, NewQuarantineRecord(unaccepted, coins, declined))`
+for every exported entry, in order -/
+def initGenesisFunds (s : State) : List GenFunds → State
+  | [] => s
+  | g :: rest => initGenesisFunds (setQuarantineRecord s g.to ⟨g.unacc, [], g.coins, g.declined⟩) rest
+
+def genTotal (l : List GenFunds) (d : Denom) : Int :=
+  match l with
+  | [] => 0
+  | g :: rest => Coins.amountOf g.coins d + genTotal rest d
+
+/-- genesis.go:12 `InitGenesis` into an empty quarantine store: panics when the holder does not
+cover the total of the imported funds. `order` is the order of the entries in the genesis file. -/
+def regenesis (s : State) (order : List GenFunds → List GenFunds) : Except Err State :=
+  let funds := order (exportGenesis s)
+  let s' := initGenesisFunds { s with recs := [], index := [] } funds
+  if (funds.flatMap fun g => Coins.denoms g.coins).all fun d =>
+      decide (genTotal funds d ≤ Ledger.bal s.bank s.holder d)
+  then .ok s' else .error .panic
 
 /-- fresh chain: nothing quarantined, given balances. -/
 def init (holder : Addr) (restricted : List Denom) (xfer : List Addr) (bank : Ledger) : State :=
